@@ -38,6 +38,10 @@ where
                 Op::SetNodes {
                     data_centers: new_data_centers,
                 } => {
+                    // Data centers which no longer have any members must not be
+                    // selected from anymore.
+                    data_centers.retain(|name, _| new_data_centers.contains_key(name));
+
                     let mut new_total = 0;
                     for (name, nodes) in new_data_centers {
                         new_total += nodes.len();
